@@ -100,6 +100,13 @@ func extractTree(prog *ssa.Program, fn *ssa.Function, mkArgs func() []pred.Val, 
 func extractTreeWith(prog *ssa.Program, fn *ssa.Function, mkArgs func() []pred.Val, sums map[string]pred.Summary,
 	fixed func(a, b pred.Val) (int, bool, bool), keyOf func(a, b pred.Val) (string, bool), domain func(key string) []int,
 	globals func(string) (pred.Val, bool), prune ...func(assign map[string]int) bool) ([]leaf, error) {
+	return extractTreeFull(prog, fn, mkArgs, sums, fixed, keyOf, domain, globals, nil, prune...)
+}
+
+// extractTreeFull additionally takes a fallback summary for functions of the module.
+func extractTreeFull(prog *ssa.Program, fn *ssa.Function, mkArgs func() []pred.Val, sums map[string]pred.Summary,
+	fixed func(a, b pred.Val) (int, bool, bool), keyOf func(a, b pred.Val) (string, bool), domain func(key string) []int,
+	globals func(string) (pred.Val, bool), fallback func(*ssa.Function, []pred.Val) (pred.Val, bool, error), prune ...func(assign map[string]int) bool) ([]leaf, error) {
 	var leaves []leaf
 	var rec func(assign map[string]int) error
 	rec = func(assign map[string]int) error {
@@ -107,7 +114,7 @@ func extractTreeWith(prog *ssa.Program, fn *ssa.Function, mkArgs func() []pred.V
 			return fmt.Errorf("more than %d abstract valuations", maxLeaves)
 		}
 		o := &treeOracle{assign: assign, fixed: fixed, keyOf: keyOf}
-		ev := &pred.Evaluator{Prog: prog, Oracle: o, Summaries: sums, GlobalInit: globals}
+		ev := &pred.Evaluator{Prog: prog, Oracle: o, Summaries: sums, GlobalInit: globals, Fallback: fallback}
 		out, err := ev.Eval(fn, mkArgs())
 		if err != nil && o.unknown != "" {
 			for _, v := range domain(o.unknown) {
